@@ -9,3 +9,4 @@ open Qvnt
 #print axioms C16_total
 #print axioms C16_zero
 #print axioms C16_code_sample
+#print axioms C16_code_zero
